@@ -629,3 +629,7 @@ META = {
     'technique': 'static analysis: call-graph single-source check, snapshot/redefinition path analysis, field read-set vs cache-key provenance, string-shape agreement, dominator check of per-iteration flag initialisation',
     'design_ref': 'DESIGN.md section 5, C18',
 }
+
+
+from . import shared as _shared
+_shared.register('C18', 'C18')
